@@ -180,7 +180,48 @@ def none_means_all_reachable(ctx):
                    "tour nodes as connectable and nothing is dropped" % (bad[0].line() if bad else "?"), loc=bad[0].line() if bad else None)
 
 
+def scans_are_loops(ctx):
+    """after the prefilter candidate the searches keep walking while can_reach fails: the walk is a loop"""
+    for fn in ("latest_not_reaching_node", "latest_not_reached_by_node"):
+        o, fd = ctx.require_fn("R1.%s.walk-is-a-loop" % fn, "T1", T(fn),
+                               "%s walks over all further unreachable nodes (a loop around can_reach), not just one" % fn)
+        if fd is None:
+            continue
+        crs = calls_to(fd, N("can_reach"))
+        inloop = [c for c in crs if c.bb in (set().union(*[fd.cfg.reachable_from(s) for s in fd.cfg.succ[c.bb]]) if fd.cfg.succ[c.bb] else set())]
+        ctx.decide(o, bool(inloop), "%d can_reach test(s) inside a loop" % len(inloop),
+                   "no can_reach test of %s lies inside a loop: only one further node is examined, later unreachable nodes stay in the tour" % fn)
+
+
+def gap_operands(ctx):
+    """the gap test connects the node before the removed block with the node after it"""
+    key = T("check_if_sequence_is_removable")
+    if key not in ctx.prog.bodies:
+        return
+    from .order import _index_offset
+    o, fd = ctx.require_fn("R2.gap-test-operands", "T12", key, "the gap test asks can_reach(nodes[start-1], nodes[end+1])")
+    cr = calls_to(fd, N("can_reach"))
+    if len(cr) != 1:
+        ctx.undecided(o, "expected one can_reach call")
+        return
+    a = _index_offset(fd, cr[0], cr[0].args[1])
+    b = _index_offset(fd, cr[0], cr[0].args[2])
+    if a is None or b is None:
+        ctx.undecided(o, "index expressions not recognised")
+        return
+    pa = {fd.body.local_name(l) or l for l in a[0]}
+    pb = {fd.body.local_name(l) or l for l in b[0]}
+    ra = {l for l in a[0] if 1 <= l <= fd.body.argc}
+    rb = {l for l in b[0] if 1 <= l <= fd.body.argc}
+    ok = ra == {2} and a[1] == -1 and rb == {3} and b[1] == 1
+    ctx.decide(o, ok, "can_reach(nodes[start_position - 1], nodes[end_position + 1])",
+               "the gap test uses nodes[%s%+d] and nodes[%s%+d] instead of the node before the start position and the node after the end position"
+               % (sorted(pa), a[1], sorted(pb), b[1]), loc=cr[0].line())
+
+
 def rules(ctx):
+    scans_are_loops(ctx)
+    gap_operands(ctx)
     gap_guard(ctx)
     none_means_all_reachable(ctx)
     hand_back(ctx)
